@@ -192,7 +192,7 @@ func (o *objectGoMapReflect) defineOwnPropertyStr(name unistring.String, descr P
 		return false
 	}
 
-	return o._put(o.strToKey(name.String(), throw), descr.Value, throw)
+	return o._define(o.strToKey(name.String(), throw), descr.Value, throw)
 }
 
 func (o *objectGoMapReflect) defineOwnPropertyIdx(idx valueInt, descr PropertyDescriptor, throw bool) bool {
@@ -200,7 +200,19 @@ func (o *objectGoMapReflect) defineOwnPropertyIdx(idx valueInt, descr PropertyDe
 		return false
 	}
 
-	return o._put(o.toKey(idx, throw), descr.Value, throw)
+	return o._define(o.toKey(idx, throw), descr.Value, throw)
+}
+
+// _define is _put for defineOwnProperty: a descriptor without [[Value]] leaves an existing entry as it is
+// and creates a new one with the zero value.
+func (o *objectGoMapReflect) _define(key reflect.Value, val Value, throw bool) bool {
+	if val == nil {
+		if key.IsValid() && o.fieldsValue.MapIndex(key).IsValid() {
+			return true
+		}
+		val = _undefined
+	}
+	return o._put(key, val, throw)
 }
 
 func (o *objectGoMapReflect) hasOwnPropertyStr(name unistring.String) bool {
